@@ -249,6 +249,20 @@ var c20Encode = probe.Define("C20", "encode-pure", func(t *rapid.T) c20EncIn {
 			return probe.Fail("Encode after overwriting the previously returned buffer gives different octets")
 		}
 	}
+	// encoding is a function of the message as it is NOW: after the message is changed, the next encoding is that of the
+	// changed message (nothing cached from the earlier encodings)
+	changed := in.Msg
+	changed.Header.MsgID++
+	changed.Payloads = append(append([]model.Payload(nil), in.Msg.Payloads...), model.Payload{Kind: model.KNonce, Data: model.Bytes{0xC2, 0x00}})
+	lm.IKEHeader.MessageID++
+	lm.Payloads.BuildNonce([]byte{0xC2, 0x00})
+	var yc []byte
+	if err := probe.Try(func() error { var e error; yc, e = lm.Encode(); return e }); err == nil {
+		want, _, werr := libEncode(changed)
+		if werr == nil && !bytes.Equal(yc, want) {
+			return probe.Fail("after the message was changed (message id, one more payload) its encoding differs from the encoding of an identical freshly built message")
+		}
+	}
 	return probe.Outcome{NonTrivial: model.ChainSize(in.Msg.Payloads) > 4*len(in.Msg.Payloads), Labels: in.Msg.Labels()}
 })
 
